@@ -15,15 +15,16 @@ import (
 )
 
 type relayOpts struct {
-	Paths     []string // subset of "backend","route","static"
-	MaxVias   int
-	MaxRRs    int
-	MaxExt    int
-	MaxLong   int
-	MaxBody   int
-	RichRoute bool  // C13-style route sets
-	Entries   []int // listen entries to use as ingress
-	NoTCP     bool
+	Paths      []string // subset of "backend","route","static"
+	MaxVias    int
+	MaxRRs     int
+	MaxExt     int
+	MaxLong    int
+	MaxBody    int
+	RichRoute  bool  // C13-style route sets
+	JoinOpaque bool  // undecodable Via entries may share a header line with decodable ones (below the first line)
+	Entries    []int // listen entries to use as ingress
+	NoTCP      bool
 }
 
 type relayCase struct {
@@ -182,6 +183,9 @@ func (s *stdSvc) gViaStack(rt *rapid.T, label string, g stdIngress, max int) []A
 	var out []AVia
 	for i := 0; i < n; i++ {
 		v := gVia(rt, fmt.Sprintf("%s.%d", label, i), viaOpts{hostFn: hostFn})
+		if i > 0 && rapid.IntRange(0, 9).Draw(rt, fmt.Sprintf("%s.%d.opaque", label, i)) == 0 {
+			v = gOpaqueVia(rt, fmt.Sprintf("%s.%d", label, i))
+		}
 		if i == 0 {
 			// the sender's entry: make it unique so that transactions never collide
 			v.Proto, v.Ver = "SIP", "2.0"
@@ -238,7 +242,7 @@ func (s *stdSvc) gRelayRequest(rt *rapid.T, o relayOpts) relayCase {
 	}
 	rc.Ingress = g
 	L := s.transportOf(g)
-	p := msgParts{IsReq: true, Version: "SIP/2.0"}
+	p := msgParts{IsReq: true, Version: "SIP/2.0", JoinOpaque: o.JoinOpaque}
 	p.Method = gMethod(rt, "method")
 	p.CSeqMethod = p.Method
 	p.CSeqN = rapid.IntRange(0, 1<<31-1).Draw(rt, "cseq")
